@@ -66,6 +66,10 @@ mod verif_kani {
     const SIZE: u64 = 3;
 
     fn any_state() -> ClusterState {
+        any_state_n(SIZE)
+    }
+
+    fn any_state_n(size: u64) -> ClusterState {
         let k: u8 = kani::any();
         kani::assume(k < 5);
         match k {
@@ -73,7 +77,7 @@ mod verif_kani {
             1 => ClusterState::Election,
             2 => {
                 let l: u64 = kani::any();
-                kani::assume(l < SIZE);
+                kani::assume(l < size);
                 ClusterState::Follower(l)
             }
             3 => ClusterState::Leader,
@@ -83,24 +87,29 @@ mod verif_kani {
 
     // an arbitrary well-formed node state of a 3-node cluster: every field is symbolic
     fn any_cluster() -> C {
+        any_cluster_n(SIZE)
+    }
+
+    // the same for a cluster of `size` nodes (size is a constant per call)
+    fn any_cluster_n(size: u64) -> C {
         let index: u64 = kani::any();
-        kani::assume(index < SIZE);
+        kani::assume(index < size);
         let mut c = Cluster::new(
             VStorage { index: 0, term: 0, commit: 0 },
             ClusterSettings {
                 index,
-                size: SIZE,
+                size,
                 hash: 1,
                 election_factor_ms: 1,
                 heartbeat_timeout: Duration::from_millis(1),
                 term_timeout: Duration::from_millis(3),
             },
         );
-        c.state = any_state();
+        c.state = any_state_n(size);
         c.term = kani::any();
         kani::assume(c.term < u64::MAX - 2);
         let mut i = 0;
-        while i < SIZE as usize {
+        while i < size as usize {
             c.nodes[i].log_index = kani::any();
             c.nodes[i].log_term = kani::any();
             c.nodes[i].log_commit = kani::any();
@@ -282,8 +291,12 @@ mod verif_kani {
 
     // a request this node sent earlier (any earlier term: responses may be arbitrarily late)
     fn any_sent_request(c: &C, data: RequestType<u8>) -> Request<u8> {
+        any_sent_request_n(c, data, SIZE)
+    }
+
+    fn any_sent_request_n(c: &C, data: RequestType<u8>, size: u64) -> Request<u8> {
         let target: u64 = kani::any();
-        kani::assume(target < SIZE && target != c.index);
+        kani::assume(target < size && target != c.index);
         Request {
             hash: 1,
             index: c.index,
@@ -314,6 +327,43 @@ mod verif_kani {
             assert!(c.term == term_before);
             let votes = c.nodes.iter().filter(|n| n.voted).count() as u64;
             assert!(votes > SIZE / 2);
+        }
+    }
+
+    // the same for FIVE nodes: here a strict majority (3) differs from half of the nodes (2), which it does not for 3
+    #[kani::proof]
+    #[kani::unwind(7)]
+    fn c27_leader_needs_strict_majority_of_5() {
+        let mut c = any_cluster_n(5);
+        kani::assume(matches!(c.state, ClusterState::Candidate));
+        let me = c.index;
+        c.nodes[me as usize].voted = true;
+        let term_before = c.term;
+        let request = any_sent_request_n(&c, RequestType::Vote, 5);
+        let response = Response { target: c.index, result: ResponseType::Ok };
+        let _ = block_on(c.response(&request, &response));
+        if matches!(c.state, ClusterState::Leader) {
+            assert!(request.term == term_before);
+            let votes = c.nodes.iter().filter(|n| n.voted).count() as u64;
+            assert!(votes >= 3);
+        }
+    }
+
+    // C28.leader_commit_rule for FIVE nodes (a strict majority is 3)
+    #[kani::proof]
+    #[kani::unwind(7)]
+    fn c28_leader_commits_on_majority_of_5() {
+        let mut c = any_cluster_n(5);
+        kani::assume(matches!(c.state, ClusterState::Leader));
+        let request = any_sent_request_n(&c, RequestType::Heartbeat, 5);
+        let response = Response { target: c.index, result: ResponseType::Ok };
+        let commit_before = c.local().log_commit;
+        let _ = block_on(c.response(&request, &response));
+        let commit_after = c.local().log_commit;
+        assert!(commit_after >= commit_before);
+        if commit_after > commit_before {
+            let have = c.nodes.iter().filter(|n| n.log_index >= commit_after).count() as u64;
+            assert!(have >= 3);
         }
     }
 
